@@ -77,7 +77,7 @@ def model_header(model, wid="run"):
         else:
             rows.append(1)
             dur.append(FX.fix(0.0))
-    hdr = dict(ev="hdr", id=wid, dt=FX.fix(model.dt), kind=kinds, rows=rows, dur=dur,
+    hdr = dict(ev="hdr", id=wid, dt=FX.fix(model.dt), kind=kinds, rows=rows, dur=dur, grp=[0 for _ in comps],
                lsrc=[cidx[id(l.source)] for l in links], ldst=[cidx[id(l.dest)] for l in links],
                lpar=[pidx[id(l.parameter)] if l.parameter is not None else 0 for l in links],
                ltimed=[getattr(l, "_vals", None) is not None for l in links],
@@ -88,15 +88,34 @@ def model_header(model, wid="run"):
     return hdr, comps, links, pars
 
 
+def world_header(model, w):
+    """Header from the *specification's* view of the structure (world w); the model's arrays are mapped onto it, so a
+    model that wires a link differently from the specification is judged against the specification, not against itself."""
+    from . import worlds as WD
+
+    comps = [model.get_pop(c["pop"]).get_comp(c["base"]) for c in w["comps"]]
+    links = [WD.find_link(model, w, l) for l in w["links"]]
+    cidx = {c["name"]: i + 1 for i, c in enumerate(w["comps"])}
+    pidx = {p["name"]: i + 1 for i, p in enumerate(w["pars"])}
+    pars = [model.get_pop(p["pop"]).get_par(p["base"]) for p in w["pars"]]
+    hdr = dict(ev="hdr", id=w["id"], dt=FX.fix(float(w["dt"])), kind=[c["kind"] for c in w["comps"]], rows=[c["rows"] for c in w["comps"]],
+               dur=[FX.fix(float(c["D"] or 0)) for c in w["comps"]], grp=[c["grp"] for c in w["comps"]],
+               lsrc=[cidx[l["src"]] for l in w["links"]], ldst=[cidx[l["dst"]] for l in w["links"]],
+               lpar=[0 if (l["par"] == ">" or l["flush"]) else pidx[l["par"]] for l in w["links"]],
+               ltimed=[bool(l["timed"]) for l in w["links"]], lflush=[bool(l["flush"]) for l in w["links"]],
+               units=[p["units"] for p in w["pars"]], tscale=[FX.fix(float(p["T"] or 1)) for p in w["pars"]])
+    return hdr, comps, links, pars
+
+
 def _rows(x, k):
     v = getattr(x, "_vals", None)
     return v[:, k] if v is not None else np.array([x.vals[k]])
 
 
-def record_run(model, path, wid="run", steps=None, corrupt=None):
+def record_run(model, path, wid="run", steps=None, corrupt=None, world=None, init=None):
     """Write the NDJSON trace of a processed model. steps: iterable of time indices (default all).
     corrupt: optional callable(event_dict_of_floats) used by the negative controls."""
-    hdr, comps, links, pars = model_header(model, wid)
+    hdr, comps, links, pars = world_header(model, world) if world is not None else model_header(model, wid)
     obs = model.__dict__.get("_verif_obs", {})
     T = len(model.t)
     n = 0
@@ -106,13 +125,14 @@ def record_run(model, path, wid="run", steps=None, corrupt=None):
             if k >= T - 1:
                 continue
             ca, oc = obs.get(k, ({}, {}))
-            ev = dict(ti=k, first=(k == 0),
+            ev = dict(ti=k, first=(k == (steps[0] if steps is not None else 0)), consecutive=(steps is None or k == 0 or (k - 1) in steps),
                       pv=[float(p.vals[k]) for p in pars],
                       st=[[float(y) for y in _rows(c, k)] for c in comps],
                       fl=[[float(y) for y in _rows(l, k)] for l in links],
                       nx=[[float(y) for y in _rows(c, k + 1)] for c in comps],
                       ca=[ca.get(id(l)) for l in links],
-                      outc=[oc.get(id(c)) for c in comps])
+                      outc=[oc.get(id(c)) for c in comps],
+                      init=(init if (init is not None and k == 0) else None))
             if corrupt:
                 corrupt(ev)
             f.write(json.dumps(encode_event(ev)) + "\n")
@@ -144,18 +164,19 @@ def encode_event(ev):
         else:
             oc.append([fx(v, "outc%d" % i)])
     out["outc"] = oc
+    out["init"] = [[fx(v, "init%d" % i) for v in rows] for i, rows in enumerate(ev["init"])] if ev.get("init") is not None else []
     out["nonfinite"] = nonfinite
     return out
 
 
 ALL_CLAUSES = ["Balance", "JunctionPass", "Global", "NonNeg", "Finite", "NoOverdraw", "Ratio", "NegZero", "ConvertRel", "ResolveRel",
-               "JEmpty", "JSplit", "Rows", "ShiftRel", "FlushAll"]
+               "JEmpty", "JSplit", "FlushConserves", "Rows", "ShiftRel", "FlushAll", "Bound", "NotEarly"]
 CLAUSES = {
-    "C01": ["Balance", "JunctionPass", "Global"],
+    "C01": ["Balance", "JunctionPass", "Global", "FlushConserves"],
     "C02": ["NonNeg", "Finite", "NoOverdraw", "Ratio", "NegZero"],
     "C03": ["ConvertRel", "ResolveRel"],
-    "C04": ["JEmpty", "JSplit", "JunctionPass"],
-    "C05": ["Rows", "ShiftRel", "FlushAll"],
+    "C04": ["JEmpty", "JSplit", "JunctionPass", "FlushConserves"],
+    "C05": ["Rows", "ShiftRel", "FlushAll", "Bound", "NotEarly"],
 }
 
 
